@@ -32,8 +32,6 @@ import (
 func TestSim(t *testing.T) {
 	hysim.Main(t,
 		&hysim.Harness{Name: "c03cliudp", Gen: genC03Cli, Exec: execC03Cli},
-		// the same workload in a race-detector build (part c03cliudprace)
-		&hysim.Harness{Name: "c03cliudprace", Gen: genC03Cli, Exec: execC03Cli},
 	)
 }
 
